@@ -1,4 +1,5 @@
 import GroupbyVerif.Lemmas.Reducers
+import GroupbyVerif.Lemmas.Dispatch
 import GroupbyVerif.Model.GenTable
 import GroupbyVerif.Bridge
 
@@ -116,6 +117,42 @@ theorem blockwise_eq_def (kn : Kernel) (k : Kind) (hk : k.Supported)
       p g = specKernel kn k (valsOf (b0 :: bs).flatten g) := by
   obtain ⟨p, h1, h2⟩ := blockwise_eq_single_pass kn k hk b0 bs hwf g hg
   exact ⟨p, h1, by rw [h2, kernel_eq_def _ _ _ _ hg]⟩
+
+/-- **end to end at the kernel level**: `group_<kernel>(codes, values, ngroups, mask, n_threads)` with
+values contiguous or arrow-chunked returns, for every group, the per-group definition applied to
+the rows `rows[mask]` selects — for every mask kind (boolean, slice, positions with repeats /
+negative positions), every thread count and every chunking of the values -/
+theorem groupKernel_eq_def (kn : Kernel) (k : Kind) (hk : k.Supported) (rows : List Row) (mask : Mask)
+    (threads : Nat) (vch : Option (List Nat)) (p : Int → Partial)
+    (hwf : ∀ r ∈ rows, WF k r.2) (hm : ∀ m, mask = .bool m → m.length = rows.length)
+    (h : groupKernel modelReducers kn k rows mask threads vch = some p) (g : Int) (hg : 0 ≤ g) :
+    ∃ sel, selectRows rows mask = some sel ∧ p g = specKernel kn k (valsOf sel g) := by
+  unfold groupKernel at h
+  cases hb : blocksOf rows mask threads vch with
+  | none => simp [hb] at h
+  | some blocks =>
+    simp only [hb] at h
+    obtain ⟨hsel, hne⟩ := blocksOf_flatten rows mask threads vch blocks hm hb
+    refine ⟨blocks.flatten, hsel, ?_⟩
+    have hmem := selectGen_mem rows mask blocks.flatten hsel
+    cases blocks with
+    | nil => exact absurd rfl hne
+    | cons b0 bs =>
+      have hwfb : BlocksWF k (b0 :: bs) := by
+        intro b hb' r hr
+        exact hwf r (hmem r (List.mem_flatten.mpr ⟨b, hb', hr⟩))
+      cases bs with
+      | nil =>
+        simp only [Option.some.injEq] at h
+        subst h
+        simpa using kernel_eq_def kn k b0 g hg
+      | cons b1 bs' =>
+        obtain ⟨q, hq1, hq2⟩ := blockwise_eq_def kn k hk b0 (b1 :: bs') hwfb g hg
+        simp only at h
+        rw [hq1] at h
+        simp only [Option.some.injEq] at h
+        subst h
+        exact hq2
 
 /-- negative codes are ignored: deleting those rows changes no group's result -/
 theorem neg_codes_ignored (kn : Kernel) (k : Kind) (rows : List Row) (g : Int) (hg : 0 ≤ g) :
